@@ -8,6 +8,7 @@ import (
 	"math/rand"
 	"os"
 	"sort"
+	"sync"
 	"testing"
 	"testing/synctest"
 	"time"
@@ -433,6 +434,89 @@ func TestDriveC07Ctl(t *testing.T) {
 				c2.Close()
 			}
 			rec.Emit(Ev{"ev": "CtlSweepRate", "gmin": c.Fan.GetMinPwm(), "mx": c.Fan.GetMaxPwm(), "m": lim, "prev": prev, "reqs": rr})
+		}
+	}
+}
+
+// TestDriveC07Conc: C07 when several fans evaluate one curve graph at the same time (each controller runs in its own
+// goroutine) while the sensor monitors push the temperatures up: the values any ONE fan sees in successive evaluations never
+// decrease. (Every sensor read of a later evaluation happens after every read of an earlier one of the same goroutine, the
+// graph is monotone, so the sequence is non-decreasing whatever the interleaving - unless evaluations disturb each other.)
+func TestDriveC07Conc(t *testing.T) {
+	out := os.Getenv("VERIF_OUT")
+	if out == "" {
+		t.Skip("VERIF_OUT not set")
+	}
+	seed := int64(envInt("VERIF_SEED", 1))
+	n := envInt("VERIF_N", 20)
+	rec, err := NewRecorder(out)
+	must(err)
+	defer rec.Close()
+	r := rand.New(rand.NewSource(seed))
+	for round := 0; round < n; round++ {
+		pfx := uniq("cc")
+		var ss []sensors.Sensor
+		for k := 0; k < 2; k++ {
+			s, err := sensors.NewSensor(configuration.SensorConfig{ID: fmt.Sprintf("%ss%d", pfx, k), File: &configuration.FileSensorConfig{Path: "/nonexistent"}})
+			must(err)
+			s.SetMovingAvg(20000)
+			sensors.RegisterSensor(s)
+			ss = append(ss, s)
+		}
+		mk := func(cc configuration.CurveConfig) curves.SpeedCurve {
+			c, err := curves.NewSpeedCurve(cc)
+			must(err)
+			curves.RegisterSpeedCurve(c)
+			return c
+		}
+		fn := pick(r, "sum", "average", "maximum", "minimum")
+		mk(configuration.CurveConfig{ID: pfx + "lin", Linear: &configuration.LinearCurveConfig{Sensor: pfx + "s0", Min: 20 + r.Intn(20), Max: 60 + r.Intn(30)}})
+		mk(configuration.CurveConfig{ID: pfx + "st", Linear: &configuration.LinearCurveConfig{Sensor: pfx + "s1", Steps: map[int]float64{25: 10, 45: 90, 65: 200, 85: 255}}})
+		mk(configuration.CurveConfig{ID: pfx + "fn", Function: &configuration.FunctionCurveConfig{Type: fn, Curves: []string{pfx + "lin", pfx + "st"}}})
+		top := mk(configuration.CurveConfig{ID: pfx + "top", Function: &configuration.FunctionCurveConfig{Type: pick(r, "maximum", "sum", "average"), Curves: []string{pfx + "fn", pfx + "lin", pfx + "st"}}})
+		var wg sync.WaitGroup
+		stop := make(chan struct{})
+		// the monitors: temperatures only rise
+		wg.Add(1)
+		go func() {
+			defer wg.Done()
+			v := 20000.0
+			for {
+				select {
+				case <-stop:
+					return
+				default:
+				}
+				v += 37
+				ss[0].SetMovingAvg(v)
+				ss[1].SetMovingAvg(v + 1500)
+				if v > 95000 {
+					return
+				}
+			}
+		}()
+		results := make([][]int, 4)
+		var fw sync.WaitGroup
+		for g := 0; g < 4; g++ {
+			fw.Add(1)
+			go func(g int) {
+				defer fw.Done()
+				vals := make([]int, 0, 400)
+				for k := 0; k < 400; k++ {
+					v, err := top.Evaluate()
+					if err != nil {
+						v = -1
+					}
+					vals = append(vals, v)
+				}
+				results[g] = vals
+			}(g)
+		}
+		fw.Wait()
+		close(stop)
+		wg.Wait()
+		for g := 0; g < 4; g++ {
+			rec.Emit(Ev{"ev": "ConcSweep", "fn": fn, "vals": results[g]})
 		}
 	}
 }
